@@ -45,13 +45,18 @@ def polar_of(pars, prefix):
     return pars[prefix + "r"], pars[prefix + "i"]
 
 
-def run_config(ctx, rnd, tag, M0, mf, res, nev, cases):
+def run_config(ctx, rnd, tag, M0, mf, res, nev, cases, p4=None, pars=None, info=None):
     from tf_pwa.config_loader import ConfigLoader
     cfg = ampkit.three_body_config(M0, mf, res)
     config = ConfigLoader(cfg)
     amp = config.get_amplitude()
-    pars = ampkit.random_params(amp, rnd)
-    p4 = ampkit.gen_events(M0, mf, nev, rnd.randrange(10 ** 6))
+    if pars is None:
+        pars = ampkit.random_params(amp, rnd)
+    else:
+        amp.set_params(pars)
+    if p4 is None:
+        p4 = ampkit.gen_events(M0, mf, nev, rnd.randrange(10 ** 6))
+    nev = len(p4["B"])
     data = config.data.cal_angle(p4)
     dens = np.array(amp(data))
     per_chain, full = ampkit.chain_amps(amp, data)
@@ -113,6 +118,8 @@ def run_config(ctx, rnd, tag, M0, mf, res, nev, cases):
                       {"layer": "density", "config": cfg, "event": {x: p4[x][e].tolist() for x in ampkit.FINALS}, "impl_density": float(dens[e]),
                        "chain_amps": [str(complex(pc.reshape(-1)[e])) for pc in per_chain]}))
     ctx.evaluations += nev * (1 + 2 * len(dg.chains))
+    if info is not None:
+        info.update(pars=pars, p4=p4, dens=dens, cfg=cfg)
     return cfg
 
 
